@@ -528,6 +528,11 @@ def run_history(hist, stop_on_violation=True, use_known=True):
     finally:
         if env.SIM_ID.reuses:
             w.stats["fault.id_reuse"] = env.SIM_ID.reuses
+        if w._tmpdir is not None:
+            import shutil
+
+            shutil.rmtree(w._tmpdir, ignore_errors=True)
+            w._tmpdir = None
         env.reset_process_state()
     return w
 
@@ -607,6 +612,12 @@ class EpochGen:
                         terms.remove(src)
             elif k == "fail":
                 PROPS["C08"]._g_fail(g, {}, 0)
+            elif k == "tindex":
+                h = g.op_tensor_index(src)
+                if h is not None:
+                    terms.append(h)
+            elif k == "idxmut":
+                g.idx_mutate()
             elif k == "leaf":
                 g.leaf()
             elif k == "badleaf":
@@ -743,6 +754,10 @@ class C05(Prop):
             cfg["dtypes"] = ["f8"]
         w = {"view": rng.choice([3, 6]), "adv": rng.choice([0, 1]), "read": rng.choice([3, 5]), "setitem": rng.choice([2, 5]), "iop": rng.choice([1, 3]),
              "ufunc": rng.choice([1, 3]), "setshape": rng.choice([0, 0, 1]), "drop": rng.choice([0, 1]), "leaf": 0.5, "fail": 0}
+        if rng.random() < 0.25:
+            # integer tensors used as indices, and later updated in place
+            w["tindex"] = rng.choice([1, 2])
+            w["idxmut"] = rng.choice([0, 1, 2])
         if cfg["lane"] == "seams":
             cfg["id_policy"] = rng.choice(["lifo", "random"])
             cfg["gc_preempt_p"] = 0.15
